@@ -859,12 +859,14 @@ example (tv : GoVal) : ∃ c, Generated.GoctyFns.fromCtyNumber ⟨.number, .n (N
 /-! ## Second deepening (slice d18b)
 
 Three predicates of the harness that caught seeded changes now have statements (on the hand-written model diffed
-against /repo), and the SHAPE CHECKS of the collection decoders are regenerated from the source:
-`Generated.GoctyShapeFns.fromCtyList / fromCtySet / fromCtyMap / fromCtyTuple` are the translated text of cty/gocty/out.go
-(kind dispatch, null guards, `length != target.Len()`, the tuple's field count and positional loop); the recursive call is a
-parameter (`D18bTie.recS S` = the model itself), and the five `ForEachElement` closures are pinned regions (text compared
-on every run).  `fromCtyValue`, `fromCtyPopulatePtr`, `fromCtyObject` stay tied by the theorems above on the hand-written
-model only. -/
+against /repo), and the STRUCTURE of `fromCtyValue` and of the collection decoders is regenerated from the source:
+`Generated.GoctyShapeFns.fromCtyValue / fromCtyList / fromCtySet / fromCtyMap / fromCtyTuple / fromCtyObject` are the
+translated text of cty/gocty/out.go — the `cty.Value` passthrough, the null and unknown guards, the dispatch on the type kind,
+the kind dispatch of every decoder, their null guards, `length != target.Len()`, the tuple's field count and positional loop.
+The recursive call is a parameter (`D18bTie.recS S` = the model itself: open recursion), `fromCtyPopulatePtr` is given API
+(`populateTy` / `populateLift`), the five `ForEachElement` closures and the two Go-map loops of `fromCtyObject` are PINNED
+REGIONS (their text is compared on every run and their meaning written in the model's vocabulary), `fromCtyCapsule` is not
+translated (capsules are outside the model). -/
 
 /-- "shape mismatches … return an error", arrays, for EVERY length: a list or a set is decoded into a Go array `[n]E`
 (behind any pointers) only if it has exactly `n` members, and every other length is refused with an error whatever the
@@ -1021,6 +1023,39 @@ theorem generated_fromCtyObject_eq (S : Sched) (names : List String) (atys : Lis
       (zeroVal T)) = GoctyFnsTie.er (fromCtyP S [] (.object names atys opt) (.smap names cs) T) :=
   D18bTie.fromCtyObject_tie S names atys opt cs T hd hc
 
+/-- `fromCtyValue` as written in the source — with the translated decoders it dispatches to — is the model of `FromCtyValue`
+on every known, non-null, kind-correct value without a mark at the top, into every target whose pointee is not `cty.Value`
+(at any pointer depth); the recursive calls are the model itself (`recFor`: an object hands the next schedule down) -/
+theorem generated_fromCtyValue_eq (S : Sched) (ty : Ty) (p : Payload) (T : GoTy) (tv : GoVal)
+    (hc : T.base.isCval = false) (hk : kindOK ty p = true)
+    (hwf : ∀ etys cs, ty = .tuple etys → p = .seq cs → cs.length = etys.length) :
+    GoctyFnsTie.er (Generated.GoctyShapeFns.fromCtyValue (D18bTie.recFor S ty) (S 0) ⟨ty, p⟩ T tv) =
+      GoctyFnsTie.er (fromCtyP S [] ty p T) :=
+  D18bTie.fromCtyValue_tie S ty p T tv hc hk hwf
+
+/-- … and its three guards are the model's, for ANY recursive decoder, with the marks pushed down from the containers:
+a `cty.Value` pointee receives the value as it is (exactly, unknown / null / marked alike); null goes through the last
+pointer; an unknown value is refused -/
+theorem generated_fromCtyValue_guards (S : Sched) (rec : GoctyGo.Rec) (ord : List String → List String) (ms : List String) (ty : Ty)
+    (p : Payload) (T : GoTy) (tv : GoVal) (hm : p.isMarked = false) :
+    (T.base.isCval = true → Generated.GoctyShapeFns.fromCtyValue rec ord ⟨ty, pushMarks ms p⟩ T tv = fromCtyP S ms ty p T) ∧
+    (T.base.isCval = false → p = .null → nullViaPtr ty = true →
+      GoctyFnsTie.er (Generated.GoctyShapeFns.fromCtyValue rec ord ⟨ty, pushMarks ms p⟩ T tv) = GoctyFnsTie.er (fromCtyP S ms ty p T)) ∧
+    (T.base.isCval = false → (∃ r, p = .unk r) →
+      GoctyFnsTie.er (Generated.GoctyShapeFns.fromCtyValue rec ord ⟨ty, pushMarks ms p⟩ T tv) = GoctyFnsTie.er (fromCtyP S ms ty p T)) :=
+  D18bTie.fromCtyValue_tie_guards S rec ord ms ty p T tv hm
+
+/-- `errors_unknown` and `errors_null_nonnilable`, about the translated source and for ANY behaviour of the recursive call:
+in out.go an unknown value (marked or not) is refused before any decoder is chosen, and a null (of a type other than list,
+map, capsule) is refused by a non-pointer target and otherwise sets the last pointer to nil -/
+theorem errors_unknown_null_generated (rec : GoctyGo.Rec) (ord : List String → List String) (v : Value) (T : GoTy) (tv : GoVal)
+    (hc : T.base.isCval = false) :
+    (v.isKnown = false → GoctyFnsTie.er (Generated.GoctyShapeFns.fromCtyValue rec ord v T tv) = .err "") ∧
+    (v.isNull = true → nullViaPtr v.ty = true →
+      GoctyFnsTie.er (Generated.GoctyShapeFns.fromCtyValue rec ord v T tv) =
+        if T.depth = 0 then .err "" else .ok (wrapPtr (T.depth - 1) .nilPtr)) :=
+  ⟨fun hk => D18bTie.fromCtyValue_unknown rec ord v T tv hc hk, fun hn hv => D18bTie.fromCtyValue_null rec ord v T tv hc hn hv⟩
+
 /-- `array_length_rule`, about the translated source and for ANY behaviour of the recursive call: in out.go the
 `length != target.Len()` tests of `fromCtyList` and `fromCtySet` come before the element loops, and `fromCtyTuple` compares
 the field count first — a wrong length is refused before a single member is looked at -/
@@ -1055,6 +1090,14 @@ example (S : Sched) : Generated.GoctyShapeFns.fromCtyList (D18bTie.recS S) ⟨.l
 example (S : Sched) : Generated.GoctyShapeFns.fromCtyTuple (D18bTie.recS S) ⟨.tuple [.string, .number], .seq [.s "a", .n (Num.ofInt 7)]⟩
     (.struct ["", ""] [.str, .int .w8 true]) (zeroVal (.struct ["", ""] [.str, .int .w8 true])) =
     .ok (.struct ["", ""] [.str "a", .int 7]) := by rfl
+
+example (S : Sched) : Generated.GoctyShapeFns.fromCtyValue (D18bTie.recS S) (S 0)
+    ⟨.list .number, .seq [.n (Num.ofInt 1), .null]⟩ (.ptr (.slice (.ptr (.int .w8 true)))) .nilPtr =
+    .ok (.ptr (.slice [.ptr (.int 1), .nilPtr])) := by rfl
+example : kindOK (.list .number) (.seq [.n (Num.ofInt 1), .null]) = true ∧ (GoTy.ptr (.slice (.ptr (.int .w8 true)))).base.isCval = false :=
+  ⟨rfl, rfl⟩
+example (S : Sched) : Generated.GoctyShapeFns.fromCtyValue (D18bTie.recS S) (S 0) ⟨.string, .unk .unref⟩ (.ptr .str) .nilPtr =
+    .err "value must be known" := by rfl
 
 end C18
 end CtyModel
